@@ -6,6 +6,7 @@ import (
 	"context"
 	"fmt"
 	"io"
+	"net"
 	"net/http"
 	"net/url"
 	"strings"
@@ -22,14 +23,14 @@ import (
 var httpEndpoints = []string{"e1", "e10", "e1-x", "api", "ghost"} // "ghost" never gets an upstream
 var tcpEndpoints = []string{"t1", "t10", "tghost"}
 
-var h3Ops = []string{"listen", "unlisten", "http", "tcp", "wait", "partition", "heal", "shutdown", "kill", "sync", "fwdprobe"}
+var h3Ops = []string{"listen", "unlisten", "http", "tcp", "wait", "partition", "heal", "shutdown", "kill", "sync", "fwdprobe", "slowclient"}
 
 var h3Profiles = map[string][]int{
 	//      lsn unl http tcp wait part heal shut kill sync fwd
-	"C01": {14, 8, 34, 10, 14, 3, 3, 1, 1, 4, 0},
-	"C06": {10, 8, 30, 8, 10, 10, 4, 0, 0, 2, 10},
-	"C05": {20, 18, 14, 4, 14, 2, 2, 0, 0, 2, 0},
-	"C16": {22, 22, 14, 4, 10, 2, 2, 2, 1, 2, 0},
+	"C01": {14, 8, 34, 10, 14, 3, 3, 1, 1, 4, 0, 0},
+	"C06": {10, 8, 30, 8, 10, 10, 4, 0, 0, 2, 10, 0},
+	"C05": {20, 18, 14, 4, 14, 2, 2, 0, 0, 2, 0, 0},
+	"C16": {22, 22, 14, 4, 10, 2, 2, 3, 1, 2, 0, 5},
 }
 
 func genCluster(prop string) func(rng *simkit.Rand, tier string, idx int) *simkit.Case {
@@ -47,6 +48,7 @@ func genCluster(prop string) func(rng *simkit.Rand, tier string, idx int) *simki
 		c.Cfg["stream_delay_us"] = []int64{0, 200, 2000}[rng.Intn(3)]
 		c.Cfg["segment"] = []int64{0, 300}[rng.Intn(2)]
 		c.Cfg["init_apps"] = int64(rng.Range(0, 5))
+		c.Cfg["grace_ms"] = int64([]int{2000, 10000}[rng.Intn(2)])
 		steps := rng.Range(8, 40)
 		if tier == "thorough" {
 			steps = rng.Range(8, 90)
@@ -65,6 +67,7 @@ func genCluster(prop string) func(rng *simkit.Rand, tier string, idx int) *simki
 
 type cluster3 struct {
 	*world
+	slow      []net.Conn
 	lastChurn time.Time // last time an upstream connection was made, dropped or a node stopped
 	prop     string
 	async    int
@@ -87,11 +90,16 @@ func execCluster(prop string) func(run *simkit.Run) {
 		defer w.teardown()
 		interval := time.Duration(c.Int("interval_ms")) * time.Millisecond
 		for i := 0; i < c.Int("nodes"); i++ {
-			w.startNode(nodeOpts{interval: interval})
+			w.startNode(nodeOpts{interval: interval, grace: time.Duration(c.Int("grace_ms")) * time.Millisecond})
 			if run.Failed() {
 				return
 			}
 		}
+		defer func() {
+			for _, sc := range w.slow {
+				sc.Close()
+			}
+		}()
 		guard := &hopGuard{w: w, counts: map[string]int{}}
 		w.nw.OnFirstWrite = guard.onFirstWrite
 		rng := run.Aux
@@ -141,6 +149,17 @@ func execCluster(prop string) func(run *simkit.Run) {
 				w.wg.Wait()
 			case "fwdprobe":
 				w.opForwardedProbe(op.A, op.B)
+			case "slowclient":
+				// a client that connects to a port and then says nothing (yet)
+				if live := w.liveNodes(); len(live) > 0 {
+					n := live[op.A%len(live)]
+					port := []string{"8001", "8000", "8001"}[op.B%3]
+					if conn, err := simnet.Dial("tcp", n.host+":"+port); err == nil {
+						run.Logf("slow client connected to %s:%s", n.id, port)
+						w.slow = append(w.slow, conn)
+						run.Fault("slow_client")
+					}
+				}
 			}
 			if prop == "C16" && (op.K == "listen" || op.K == "unlisten" || op.K == "shutdown") && !run.Failed() {
 				w.checkRegisteredWhileConnected()
